@@ -422,11 +422,30 @@ func (g *generator) closeLineComment() {
 	}
 }
 
+// twin: a second live js.Lexer inside template literals at several brace depths, stepped between every call on the
+// lexer under test and the use of its result (gen.Twin)
+var twin = gen.Twin{New: func() func() bool {
+	l := js.NewLexer(parse.NewInputString("{{`p${ {q:1} }r${`n${x}m`}s`}};a=`t${1}u`;/*c*/[`${{}}`]"))
+	return func() bool { tt, _ := l.Next(); return tt != js.ErrorToken }
+}}
+
+const jsTail = "}`;x=1//"
+
 func lexAll(t *rapid.T, src string) []tok {
-	l := js.NewLexer(parse.NewInputString(src))
+	in, whole := gen.Embedded([]byte(src), jsTail)
+	input := parse.NewInputBytes(in)
+	defer func() {
+		input.Restore()
+		if ok, rest := gen.CheckEmbedded(in, whole, jsTail, true); !ok || string(in) != src {
+			t.Fatalf("lexing %q changed the caller's buffer: %q + %q", src, in, rest)
+		}
+	}()
+	l := js.NewLexer(input)
 	var out []tok
 	for i := 0; i <= len(src)+1; i++ {
 		tt, data := l.Next()
+		twin.Step()
+		_ = l.Err() // polled after every call: reading the error state must not disturb the lexer
 		if tt == js.ErrorToken {
 			if l.Err() != nil && data == nil {
 				if _, ok := l.Err().(*parse.Error); ok {
